@@ -75,7 +75,7 @@ def run(pid, flt=None, quiet=False):
                                    capture_output=True, text=True)
                 want = 1 if m.get('expect', 'fail') == 'fail' else 0
                 fo = [l for l in r.stdout.split('\n') if l.startswith('FAILED-OBLIGATION')]
-                st = 'ok' if r.returncode == want else ('survived' if want == 1 else 'false-alarm')
+                st = 'ok' if r.returncode == want else (('undecided' if r.returncode == 2 else 'survived') if want == 1 else ('undecided' if r.returncode == 2 else 'false-alarm'))
                 results.append(dict(name=m['name'], status=st, rc=r.returncode, expect=m.get('expect', 'fail'),
                                     failed=[l.split(' ')[1].rstrip(':') for l in fo][:6],
                                     tail=r.stdout.strip().split('\n')[-1][:300] if st != 'ok' else ''))
@@ -96,6 +96,7 @@ def run(pid, flt=None, quiet=False):
 
 if __name__ == '__main__':
     res = run(sys.argv[1], sys.argv[2] if len(sys.argv) > 2 else None)
-    bad = [r for r in res if r['status'] != 'ok']
-    print('%d mutants, %d not as expected' % (len(res), len(bad)))
+    bad = [r for r in res if r['status'] not in ('ok', 'undecided')]
+    und = [r for r in res if r['status'] == 'undecided']
+    print('%d mutants, %d not as expected, %d undecided (exit 2: hints lost or unsupported construct)' % (len(res), len(bad), len(und)))
     sys.exit(0 if not bad else 3)
